@@ -65,7 +65,10 @@ Range(f) == {f[i] : i \in DOMAIN f}
 (* sets; in trace validation they are read from the recorded event).         *)
 
 \* ---- InitFresh
-IF_Zero(o) == o.iter = 0 /\ o.beta = 0 /\ o.calls = 0 /\ o.histLen = 0
+IF_Zero(o) == o.iter = 0 /\ o.beta = 0 /\ o.calls = 0
+\* documented behaviour beyond the listed properties: a fresh run() starts from an empty history.  It does NOT hold for a
+\* second run() on a sampler that has already run (action RunAgain below): the pinned code resets the counters only.
+IF_EmptyHistory(o) == o.histLen = 0
 
 \* ---- Reweight.  o = [first, beta, ess, logz, wts,              (recorded)
 \*                      essAt, logzAt, wtsAt, refAgrees,           (recomputed at the recorded beta from the pre-step pool)
@@ -202,6 +205,18 @@ InitFresh ==
     /\ ess' = 0 /\ logz' = 0 /\ wts' = 0
     /\ cur' = <<>> /\ modes' = <<>> /\ nsw' = 0
     /\ UNCHANGED <<cfg, evals, clus>>
+
+\* run(n_total) called AGAIN, without resume_state_path, on a sampler whose run() has returned: _initialize_fresh resets
+\* iter / beta / calls / logz but keeps the committed history, the fitted clusterer and the current particles, so the
+\* "new" run reweights the old persistent pool from beta = 0 (typically straight to 1) and appends to the old history.
+\* Within that run C05's clauses hold (the temperature starts at 0, never decreases); ACROSS the two runs the recorded
+\* temperatures are not monotone and `calls` restarts.  Named deviation: bound by the trace specification (a RunBegin
+\* with resumed = FALSE and a non-empty history fails only IF_EmptyHistory), not part of the bounded model's Next.
+RunAgain ==
+    /\ pc = "done"
+    /\ pc' = "ready"
+    /\ iter' = 0 /\ beta' = 0 /\ calls' = 0 /\ logz' = 0
+    /\ UNCHANGED <<cfg, hist, evals, clus, ess, wts, cur, modes, nsw>>
 
 \* the loop test of run_sampling: continue unless at beta = 1 with enough posterior ESS
 Continue(enough) == ~(beta = cfg.one /\ enough /\ hist # <<>>)
